@@ -660,7 +660,7 @@ def rle_strip(rle_data):
             final_i = i
             break
         else:
-            start += count
+            start += int(count)
 
     end = 0
     final_j = len(rle_data)
@@ -669,7 +669,7 @@ def rle_strip(rle_data):
             final_j = j
             break
         else:
-            end += count
+            end += int(count)
 
     rle_data = rle_data[final_i : None if final_j == 0 else -final_j].reshape((-1,))
     return rle_data, (start, end)
@@ -698,7 +698,7 @@ def brle_strip(brle_data):
             final_i = i
             break
         else:
-            start += count
+            start += int(count)
     end = 0
     final_j = len(brle_data)
     val = bool(len(brle_data) % 2)
@@ -708,7 +708,7 @@ def brle_strip(brle_data):
             final_j = j
             break
         else:
-            end += count
+            end += int(count)
 
     brle_data = brle_data[final_i : None if final_j == 0 else -final_j]
     brle_data = np.concatenate([[0], brle_data])
